@@ -30,7 +30,7 @@ enum { R = 1, Wm = 2 };
 //   en|dis|del -1 <dt> <target>                                      posted to the loop
 //   ten|tdis|tdel -1 <dt> <target>                                   performed by a loop timer that expires at that time (so it can
 //                                                                    run in the same pass as descriptor callbacks, before them)
-//   reinit <ctx|-1> <nth|dt> <target> <mask> <oneshot>                initialize() again on the same descriptor with another mask/mode
+//   reinit <ctx|-1> <nth|dt> <target> <mask> <oneshot> <newfd|-1>     initialize() again, on the same or on another descriptor, with another mask/mode
 //                                                                    (refused while the event is enabled; the model follows the answer)
 //   en|dis|del|rd|noread <ctx> <nth> <target|n>                      inside the callback of event ctx on its nth invocation
 void generate(sim::Rng &r, uint64_t seed, const std::string &tier, sim::Plan &p) {
@@ -65,7 +65,7 @@ void generate(sim::Rng &r, uint64_t seed, const std::string &tier, sim::Plan &p)
       else if (x < 80 && !samefd_only) { op.kind = "en"; op.a = {-1, dt, (long)r.below((uint64_t)nev)}; }
       else if (x < 90 && !samefd_only) { op.kind = "dis"; op.a = {-1, dt, (long)r.below((uint64_t)nev)}; }
       else if (x < 93 && !samefd_only) { op.kind = "del"; op.a = {-1, dt, (long)r.below((uint64_t)nev)}; }
-      else if (x < 95 && !samefd_only) { op.kind = "reinit"; op.a = {-1, dt, (long)r.below((uint64_t)nev), r.range(1, 3), r.chance(300) ? 1 : 0}; }
+      else if (x < 95 && !samefd_only) { op.kind = "reinit"; op.a = {-1, dt, (long)r.below((uint64_t)nev), r.range(1, 3), r.chance(300) ? 1 : 0, r.chance(400) ? (long)r.below((uint64_t)nfd) : -1}; }
       else if (x < 98 && !samefd_only) { op.kind = r.chance(500) ? "tdel" : r.chance(500) ? "tdis" : "ten"; op.a = {-1, dt, (long)r.below((uint64_t)nev)}; }
       else { op.kind = "wr"; op.a = {-1, dt, fd, 1}; }
       if (!samefd_only && r.chance(300)) { op.fseed = r.next() >> 2; op.fmask = sim::F_EVENT_SUBSET | (r.chance(300) ? sim::F_WAIT_EINTR : 0); }
@@ -82,7 +82,7 @@ void generate(sim::Rng &r, uint64_t seed, const std::string &tier, sim::Plan &p)
       if (x < 25) { op.kind = "dis"; op.a = {ctx, nth, target}; }
       else if (x < 45) { op.kind = "en"; op.a = {ctx, nth, target}; }
       else if (x < 64) { op.kind = "del"; op.a = {ctx, nth, target}; }
-      else if (x < 70) { op.kind = "reinit"; op.a = {ctx, nth, target, r.range(1, 3), r.chance(300) ? 1 : 0}; }
+      else if (x < 70) { op.kind = "reinit"; op.a = {ctx, nth, target, r.range(1, 3), r.chance(300) ? 1 : 0, (!samefd_only && r.chance(400)) ? (long)r.below((uint64_t)nfd) : -1}; }
       else if (x < 88) { op.kind = "rd"; op.a = {ctx, nth, r.range(1, 3)}; }
       else { op.kind = "noread"; op.a = {ctx, nth, 0}; }
     }
@@ -152,18 +152,20 @@ void do_disable(int t) {
   m.enabled = false;
   sim::trace("disable ev%d", t);
 }
-void do_reinit(int t, int mask, bool oneshot) {
+void do_reinit(int t, int mask, bool oneshot, long newfd = -1) {
   EvModel &m = W.m[t];
   if (!m.exists || m.pending_delete) return;
+  int fdidx = newfd >= 0 ? (int)(newfd % W.nfd) : m.fdidx;
   short tm = 0;
   if (mask & R) tm |= FdEvent::kReadEvent;
   if (mask & Wm) tm |= FdEvent::kWriteEvent;
   bool was = m.ev->isEnabled();
-  bool ok = m.ev->initialize(W.a[m.fdidx], tm, oneshot ? Event::Mode::kOneshot : Event::Mode::kPersist);
-  sim::trace("reinit ev%d mask=%d oneshot=%d -> %d (enabled=%d)", t, mask, (int)oneshot, (int)ok, (int)m.enabled);
+  bool ok = m.ev->initialize(W.a[fdidx], tm, oneshot ? Event::Mode::kOneshot : Event::Mode::kPersist);
+  sim::trace("reinit ev%d fd%d->fd%d mask=%d oneshot=%d -> %d (enabled=%d)", t, m.fdidx, fdidx, mask, (int)oneshot, (int)ok, (int)m.enabled);
+  if (fdidx != m.fdidx) sim::probe("reinit_on_another_descriptor");
   sim::probe(m.enabled ? "reinit_while_enabled" : "reinit_while_disabled");
   // whatever the answer, what the event does afterwards must agree with it: accepted = the new mask and mode are in force
-  if (ok) { m.mask = mask; m.oneshot = oneshot; }
+  if (ok) { m.mask = mask; m.oneshot = oneshot; m.fdidx = fdidx; }
   if (m.ev->isEnabled() != was) sim::violation("C03/isenabled-after-initialize", "initialize() changed what isEnabled() reports");
 }
 void do_delete(int t, int running) {
@@ -239,7 +241,7 @@ void on_event(int e, short events) {
       if (op.kind == "en") do_enable(t);
       else if (op.kind == "dis") do_disable(t);
       else if (op.kind == "del") do_delete(t, e);
-      else if (op.kind == "reinit") do_reinit(t, (int)std::max(1L, std::min(3L, op.arg(3))), op.arg(4) != 0);
+      else if (op.kind == "reinit") do_reinit(t, (int)std::max(1L, std::min(3L, op.arg(3))), op.arg(4) != 0, op.arg(5, -1));
     }
   }
   // default behaviour keeps the scenario finite under level-triggered readiness
@@ -325,7 +327,7 @@ RunResult run_once(const sim::Plan &plan, int backend) {
           int tg = (int)(((pop->arg(2) % W.nev) + W.nev) % W.nev);
           if (pop->kind == "en") do_enable(tg);
           else if (pop->kind == "dis") do_disable(tg);
-          else if (pop->kind == "reinit") do_reinit(tg, (int)std::max(1L, std::min(3L, pop->arg(3))), pop->arg(4) != 0);
+          else if (pop->kind == "reinit") do_reinit(tg, (int)std::max(1L, std::min(3L, pop->arg(3))), pop->arg(4) != 0, pop->arg(5, -1));
           else do_delete(tg, -1);
         }, "c03.op");
         return;
@@ -421,6 +423,7 @@ bool order_free(const sim::Plan &plan) {
     if (op.arg(0) >= 0 && (op.kind == "en" || op.kind == "dis" || op.kind == "del" || op.kind == "reinit")) {
       long ctx = op.arg(0) % nev, tg = ((op.arg(2) % nev) + nev) % nev;
       if (evfd[(size_t)ctx] != evfd[(size_t)tg]) return false;
+      if (op.kind == "reinit" && op.arg(5, -1) >= 0) return false;        // an event that moves to another descriptor
     }
   }
   return true;
